@@ -318,6 +318,17 @@ func c09Mutate(r *mrand.Rand, seeds [][]byte) ([]byte, string) {
 			}
 			l := locs[r.Intn(len(locs))]
 			v := gen.Pick(r, []string{"", " <", " \"unterminated", " a@b, , c@", " =?utf-8?q?=ZZ?= <a@b>", " (((", " Inv, 99 Nov 9999 99:99:00 +0000", strings.Repeat(" a@b.c,", 500), " \xff\xfe", " <>", " @", " a b c"})
+			if r.Intn(2) == 0 {
+				// syntactically valid but unusual RFC 5322 address syntax: groups (also empty ones), several mailboxes,
+				// comments, routes, domain literals, quoted pairs, empty phrases
+				toks := []string{"undisclosed-recipients:;", "The Team: ;", "g:a@b.example,c@d.example;", ":;", "a:;", "a:b:;", "a@b.example", "<a@b.example>", "\"\" <a@b.example>",
+					"\"x\\\"y\" <q@r.example>", "(comment) a@b.example (another)", "a@[192.0.2.1]", "<@r1.example,@r2.example:a@b.example>", "A B <a@b.example>, C <c@d.example>",
+					"\"a b\"@c.example", "=?utf-8?b?w6Q=?= <a@b.example>", "a.@b.example", ".a@b.example", "a@b.example;", "Group:<a@b.example>;", "x:;, y:;", "a@b.example,", ",", "<a@b.example> <c@d.example>", "a@b.example (", "\"", "g: g2: a@b.example;;"}
+				v = " " + gen.Pick(r, toks)
+				for k := r.Intn(3); k > 0; k-- {
+					v += gen.Pick(r, []string{", ", ",", " ", ";"}) + gen.Pick(r, toks)
+				}
+			}
 			b = append(append(append([]byte{}, b[:l[3]+1]...), v...), b[l[1]:]...)
 			ops = append(ops, "addr-date")
 		}
